@@ -422,10 +422,9 @@ def pathParamNames (ps : List Doc) : List String :=
 
 /-- `Paths.Validate`: the template check of one operation (code: only when the counts differ) -/
 def templateOKCode (vars common : List String) (op : Doc) : Bool :=
-  let set := pathParamNames (op.kidsAt "parameters")
-  if set.length + common.length != vars.length then
-    let defined := set ++ common
-    defined.all (vars.contains ·) && vars.all (defined.contains ·)
+  if (pathParamNames (op.kidsAt "parameters")).length + common.length != vars.length then
+    (pathParamNames (op.kidsAt "parameters") ++ common).all (vars.contains ·) &&
+    vars.all ((pathParamNames (op.kidsAt "parameters") ++ common).contains ·)
   else true
 
 def allOps (paths : Doc) : List (String × Doc) :=
@@ -434,12 +433,12 @@ def allOps (paths : Doc) : List (String × Doc) :=
 def opIds (paths : Doc) : List String :=
   (allOps paths).filterMap (fun x => let id := x.2.attrs.str "operationId"; if id = "" then none else some id)
 
+/-- `path == "" || path[0] != '/'` negated -/
+def hasSlash (p : String) : Bool := match p.toList with | '/' :: _ => true | _ => false
+
 def pathItemOKCode (pi : Doc) : Bool :=
-  let p := keyOf pi
-  (match p.toList with | '/' :: _ => true | _ => false) &&
-  (let vars := (normalizePath p).2
-   let common := pathParamNames (pi.kidsAt "parameters")
-   (pi.kidsAt "operations").all (templateOKCode vars common))
+  hasSlash (keyOf pi) &&
+  (pi.kidsAt "operations").all (templateOKCode (normalizePath (keyOf pi)).2 (pathParamNames (pi.kidsAt "parameters")))
 
 def smSupported (loc style : String) (explode : Bool) : Bool :=
   match loc with
@@ -462,11 +461,17 @@ def schemaXorContentBad (a : Attrs) : Bool := (!a.flag "hasSchema") == (a.num "c
 
 def validIn (s : String) : Bool := s = "path" || s = "query" || s = "header" || s = "cookie"
 
+/-- the `example` of a parameter / media type is acceptable to `schema.Value` -/
+def exampleOK (d : Doc) : Bool := (d.attrs.vals.filter (·.1 = "example")).all (fun kv => valOK (schemaAttrsAt d) kv.2)
+/-- every entry of `examples`, as the code reads it, is acceptable to `schema.Value` -/
+def examplesOK (d : Doc) : Bool := (examplesVals d).all (valOK (schemaAttrsAt d))
+/-- every value actually given by an entry of `examples` is acceptable to `schema.Value` -/
+def examplesGivenOK (d : Doc) : Bool := (examplesValsGiven d).all (valOK (schemaAttrsAt d))
+
 /-- example / examples of a parameter or media type against `schema.Value` -/
 def exampleValuesOK (T : Table) (o : Opts) (d : Doc) : Bool :=
-  let sa := schemaAttrsAt d
-  (if hasCheck T o d.kind "example" then (d.attrs.vals.filter (·.1 = "example")).all (fun kv => valOK sa kv.2) else true) &&
-  (if hasCheck T o d.kind "examples" then (examplesVals d).all (valOK sa) else true)
+  (if hasCheck T o d.kind "example" then exampleOK d else true) &&
+  (if hasCheck T o d.kind "examples" then examplesOK d else true)
 
 def parameterOKCode (T : Table) (o : Opts) (d : Doc) : Bool :=
   let a := d.attrs
@@ -519,17 +524,21 @@ def schemaTypeOKCode (o : Opts) (a : Attrs) (hasItems : Bool) (ty : String) : Bo
   else if ty = "array" && !hasItems then false
   else true
 
+def schemaDefaultsOK (a : Attrs) : Bool := (a.vals.filter (·.1 = "default")).all (fun kv => accepts a kv.2 != .no)
+def schemaExamplesOK (a : Attrs) : Bool := (a.vals.filter (·.1 = "example")).all (fun kv => accepts a kv.2 != .no)
+
 def innerPositions : List String := ["oneOf", "anyOf", "allOf", "not", "items", "properties", "additionalProperties"]
 
 def schemaOKCode (T : Table) (o : Opts) (d : Doc) : Bool :=
   let a := d.attrs
   if a.flag "readOnly" && a.flag "writeOnly" then false
   else if !((a.list "type").all (schemaTypeOKCode o a (d.hasKid "items"))) then false
-  else if hasCheck T o .schema "default" && !((a.vals.filter (·.1 = "default")).all (fun kv => accepts a kv.2 != .no)) then false
-  else if hasCheck T o .schema "example" && !((a.vals.filter (·.1 = "example")).all (fun kv => accepts a kv.2 != .no)) then false
+  else if hasCheck T o .schema "default" && !schemaDefaultsOK a then false
+  else if hasCheck T o .schema "example" && !schemaExamplesOK a then false
   else checkExt T o d
 
-def securitySchemeOKCode (T : Table) (o : Opts) (d : Doc) : Bool :=
+/-- `SecurityScheme.Validate` up to its final `validateExtensions` -/
+def securitySchemeShapeOK (d : Doc) : Bool :=
   let a := d.attrs
   let ty := a.str "type"
   if !(ty = "apiKey" || ty = "http" || ty = "oauth2" || ty = "openIdConnect") then false
@@ -542,9 +551,13 @@ def securitySchemeOKCode (T : Table) (o : Opts) (d : Doc) : Bool :=
   else if !(ty = "http" && a.str "scheme" = "bearer") && a.str "bearerFormat" != "" then false
   else if ty = "oauth2" && !d.hasKid "flows" then false
   else if ty != "oauth2" && d.hasKid "flows" then false
-  else checkExt T o d
+  else true
 
-def oauthFlowOKCode (T : Table) (o : Opts) (d : Doc) : Bool :=
+def securitySchemeOKCode (T : Table) (o : Opts) (d : Doc) : Bool :=
+  if !securitySchemeShapeOK d then false else checkExt T o d
+
+/-- `OAuthFlow.validate` (per flow type) and `OAuthFlow.Validate` up to the final `validateExtensions` -/
+def oauthFlowShapeOK (d : Doc) : Bool :=
   let a := d.attrs
   let ft := a.str "flowType"
   let needAuth := ft = "implicit" || ft = "authorizationCode"
@@ -552,16 +565,23 @@ def oauthFlowOKCode (T : Table) (o : Opts) (d : Doc) : Bool :=
   if (a.str "authorizationUrl" = "") == needAuth then false
   else if (a.str "tokenUrl" = "") == needTok then false
   else if !a.flag "hasScopes" then false
-  else checkExt T o d
+  else true
 
-def serverOKCode (T : Table) (o : Opts) (d : Doc) : Bool :=
+def oauthFlowOKCode (T : Table) (o : Opts) (d : Doc) : Bool :=
+  if !oauthFlowShapeOK d then false else checkExt T o d
+
+/-- `Server.Validate` up to its final `validateExtensions` -/
+def serverShapeOK (d : Doc) : Bool :=
   let url := (d.attrs.str "url").toList
   let vars := (d.kidsAt "variables").map keyOf
   if url.isEmpty then false
   else if countChar '{' url != countChar '}' url then false
   else if countChar '{' url != vars.length then false
   else if !(vars.all (fun n => isInfix (('{' :: n.toList) ++ ['}']) url)) then false
-  else checkExt T o d
+  else true
+
+def serverOKCode (T : Table) (o : Opts) (d : Doc) : Bool :=
+  if !serverShapeOK d then false else checkExt T o d
 
 def componentPositions : List String :=
   ["schemas", "parameters", "requestBodies", "responses", "headers", "securitySchemes", "examples", "links", "callbacks"]
@@ -644,19 +664,17 @@ def refViols (a : Attrs) : List Viol :=
 /-- the template rule of the property: the variables of the template and the declared path parameters
 are the same set -/
 def templateOKSpec (vars common : List String) (op : Doc) : Bool :=
-  let defined := pathParamNames (op.kidsAt "parameters") ++ common
-  defined.all (vars.contains ·) && vars.all (defined.contains ·)
+  (pathParamNames (op.kidsAt "parameters") ++ common).all (vars.contains ·) &&
+  vars.all ((pathParamNames (op.kidsAt "parameters") ++ common).contains ·)
 
 def pathItemViols (pi : Doc) : List Viol :=
   let p := keyOf pi
-  when (match p.toList with | '/' :: _ => false | _ => true) "pathNoSlash" p ++
+  when (!hasSlash p) "pathNoSlash" p ++
   when (!(pi.kidsAt "operations").all (templateOKSpec (normalizePath p).2 (pathParamNames (pi.kidsAt "parameters"))))
     "templateParams" p
 
 def exampleViols (d : Doc) : List Viol :=
-  let sa := schemaAttrsAt d
-  when (d.attrs.flag "hasSchema" &&
-        !(((d.attrs.vals.filter (·.1 = "example")).map (·.2) ++ examplesValsGiven d).all (valOK sa))) "exampleMismatch"
+  when (d.attrs.flag "hasSchema" && !(exampleOK d && examplesGivenOK d)) "exampleMismatch"
 
 def schemaTypeViols (a : Attrs) (hasItems : Bool) (ty : String) : List Viol :=
   when (!knownTypes.contains ty) "unknownType" ty ++
@@ -707,16 +725,16 @@ def violations (d : Doc) : List Viol :=
   | .schema =>
       when (a.flag "readOnly" && a.flag "writeOnly") "readWriteOnly" ++
       (a.list "type").flatMap (schemaTypeViols a (d.hasKid "items")) ++
-      when (!((a.vals.filter (·.1 = "default")).all (fun kv => accepts a kv.2 != .no))) "defaultMismatch" ++
-      when (!((a.vals.filter (·.1 = "example")).all (fun kv => accepts a kv.2 != .no))) "exampleMismatch" ++
+      when (!schemaDefaultsOK a) "defaultMismatch" ++
+      when (!schemaExamplesOK a) "exampleMismatch" ++
       extraViols a
   | .example => when (a.flag "hasValue" && a.str "externalValue" != "") "valueAndExternal" ++
       when (!a.flag "hasValue" && a.str "externalValue" = "") "noValue" ++ extraViols a
   | .link => when (a.str "operationId" = "" && a.str "operationRef" = "") "linkNoTarget" ++
       when (a.str "operationId" != "" && a.str "operationRef" != "") "linkBothTargets" ++ extraViols a
-  | .securityScheme => when (!securitySchemeOKCode ⟨[], []⟩ {} d) "illFormedSecurityScheme" ++ extraViols a
-  | .oauthFlow => when (!oauthFlowOKCode ⟨[], []⟩ {} d) "illFormedFlow" ++ extraViols a
-  | .server => when (!serverOKCode ⟨[], []⟩ {} d) "illFormedServer" ++ extraViols a
+  | .securityScheme => when (!securitySchemeShapeOK d) "illFormedSecurityScheme" ++ extraViols a
+  | .oauthFlow => when (!oauthFlowShapeOK d) "illFormedFlow" ++ extraViols a
+  | .server => when (!serverShapeOK d) "illFormedServer" ++ extraViols a
   | .serverVar => when (a.str "default" = "") "missingDefault" ++ extraViols a
   | .externalDocs => when (a.str "url" = "") "missingUrl" ++ extraViols a
   | .content | .securityReqs | .securityReq | .servers | .tags => []
@@ -782,7 +800,7 @@ def exclInnerNode (o : Opts) (d : Doc) : Bool := d.kind = .innerSchemaRef && !re
 schema does not admit null: the code validates the absent value, `nil`, against the schema -/
 def exclExternalNode (o : Opts) (d : Doc) : Bool :=
   (d.kind = .parameter || d.kind = .mediaType) && d.attrs.flag "hasSchema" && !o.exDisabled &&
-  !((examplesVals d).all (valOK (schemaAttrsAt d))) && (examplesValsGiven d).all (valOK (schemaAttrsAt d))
+  !examplesOK d && examplesGivenOK d
 
 /-- containment edges of the property for which the table has no unconditional edge -/
 def uncovered (T : Table) : List (Kind × String) :=
